@@ -13,6 +13,8 @@ pub mod hir {
     #[verifier::external_body] pub struct TypeExpr { _p: u64 }
     #[verifier::external_body] pub struct ClosureParam { _p: u64 }
     pub struct Arm { pub pat: PatId, pub body: ExprId }
+    pub enum ConstructorRef { Unresolved(Path), Other(u8) }
+    pub enum Pat { PVar { name: LocalId, astptr: super::ast::MySyntaxNodePtr }, PConstr { constructor: ConstructorRef, args: Vec<PatId> }, POther(u8) }
     pub enum Expr {
         EBlock { exprs: Vec<ExprId> },
         EMatch { expr: ExprId, arms: Vec<Arm> },
@@ -176,5 +178,29 @@ pub open spec fn params_bound(params: Seq<(ast::AstIdent, ast::TypeExpr)>, env: 
     out.len() == params.len() && env.len() == params.len()
     && (forall|i: int| 0 <= i < params.len() ==> (#[trigger] env[i]).0 == params[i].0 && env[i].1 == out[i].0)
     && (forall|i: int, j: int| 0 <= i < j < out.len() ==> (#[trigger] out[i]).0 != (#[trigger] out[j]).0)
+}
+
+// ---- resolve_pat, identifier patterns: binder or constructor ----
+impl HirTable { pub uninterp spec fn pat_of(&self, id: hir::PatId) -> hir::Pat; }
+impl ast::Path { #[verifier::external_body] pub fn from_ident(ident: ast::AstIdent) -> (r: ast::Path) ensures r.is_ident(ident.0@) { unimplemented!() } pub uninterp spec fn is_ident(&self, n: Seq<char>) -> bool; }
+impl NameResolution {
+    // the constructor a (one-segment) path names in this package, if any: looked up in the PACKAGE-WIDE constructor index
+    pub uninterp spec fn ctor_of(name: Seq<char>, ctx: &ResolutionContext) -> Option<hir::Path>;
+    #[verifier::external_body]
+    pub fn constructor_path_for(&mut self, path: &ast::Path, ctx: &ResolutionContext) -> (r: Option<hir::Path>)
+        ensures forall|n: Seq<char>| path.is_ident(n) ==> r == Self::ctor_of(n, ctx),
+    { unimplemented!() }
+    #[verifier::external_body]
+    pub fn alloc_pat_with_ptr(&mut self, hir_table: &mut HirTable, astptr: ast::MySyntaxNodePtr, p: hir::Pat) -> (r: hir::PatId)
+        ensures final(hir_table).pat_of(r) == p, final(hir_table).issued() == old(hir_table).issued(),
+    { unimplemented!() }
+}
+// an identifier pattern: a constructor of the package when the name is one (nothing is bound), otherwise a NEW binder of that name
+pub open spec fn ident_pat_ok(name: ast::AstIdent, ctx: &ResolutionContext, env0: Seq<(ast::AstIdent, hir::LocalId)>, env1: Seq<(ast::AstIdent, hir::LocalId)>, p: hir::Pat) -> bool {
+    match NameResolution::ctor_of(name.0@, ctx) {
+        Some(c) => env1 == env0 && (p matches hir::Pat::PConstr { constructor, args } && constructor == hir::ConstructorRef::Unresolved(c) && args@.len() == 0),
+        None => env1.len() == env0.len() + 1 && env1.subrange(0, env0.len() as int) == env0 && env1.last().0 == name
+            && (p matches hir::Pat::PVar { name: id, astptr: _ } && id == env1.last().1),
+    }
 }
 
